@@ -247,4 +247,30 @@ def parseReleaseH (σ : Nat → Bool) (k : MKind) (f : Frame) : M (Outcome Parse
       free (some p)
       pure (parseMgmt k f)
 
+/-- `libwifi_parse_data` (type check and address copies, then `malloc(body_len)` for the body copy) followed by
+`libwifi_free_data` -/
+def parseDataReleaseH (σ : Nat → Bool) (f : Frame) : M (Outcome DataInfo) := do
+  match parseData f with
+  | .ok d =>
+    match ← malloc σ (f.len - f.headerLen) with
+    | none => pure (.err (-ENOMEM))
+    | some p =>
+      free (some p)
+      pure (.ok d)
+  | r => pure r
+
+/-- `libwifi_get_wpa_data` (recognition, fixed fields, key-data clamp, then `malloc(key_data_length)` when that is
+positive) followed by `libwifi_free_wpa_data` -/
+def wpaDataReleaseH (σ : Nat → Bool) (f : Frame) : M (Outcome WpaData) := do
+  match getWpaData f with
+  | .ok d =>
+    if d.keyDataLength > 0 then
+      match ← malloc σ d.keyDataLength with
+      | none => pure (.err (-ENOMEM))
+      | some p =>
+        free (some p)
+        pure (.ok d)
+    else pure (.ok d)
+  | r => pure r
+
 end LWV.Heap
